@@ -135,10 +135,15 @@ pub fn run_stream(s: &Stream) -> (Vec<Violation>, u64, Option<String>) {
             }
             let base = hc.verif_probe().rx_packet_base;
             // walk 5: complete 2-3 fragment packets queue up behind a Reliable packet that never arrives (ids base+1, base+2, ...)
-            if s.walk == 5 {
-                let nf = s.nfrag.clamp(2, 3);
-                let pk = (k / nf) as u32 % 4095 + 1;
-                let dg = Datagram { sequence_id: (base + pk) & 0xFFFFF, channel_id: 0, window_parent_lead: pk as u16, channel_parent_lead: pk as u16, fragment_id: (k % nf) as u16, fragment_id_last: (nf - 1) as u16, data: junk[..FRAG].into() };
+            // walk 6: the same with single-fragment packets, after a small packet far ahead (base+1000) on another channel has been delivered
+            // (that channel's base is then ahead of everything parked); every parked packet is followed by a fragment that carries the same
+            // sequence id but claims the other channel - a datagram the receiver has to ignore, whatever it says
+            if s.walk == 5 || s.walk == 6 {
+                let nf = if s.walk == 6 { 1 } else { s.nfrag.clamp(2, 3) };
+                let pk = if s.walk == 6 { (k / 2) as u32 % 999 + 1 } else { (k / nf) as u32 % 4095 + 1 };
+                let dg = if s.walk == 6 && k == 0 { Datagram { sequence_id: (base + 1000) & 0xFFFFF, channel_id: 1, window_parent_lead: 1000, channel_parent_lead: 0, fragment_id: 0, fragment_id_last: 0, data: junk[..1].into() } }
+                    else if s.walk == 6 && k % 2 == 1 { Datagram { sequence_id: (base + pk) & 0xFFFFF, channel_id: 1, window_parent_lead: pk as u16, channel_parent_lead: 0, fragment_id: (s.nfrag.min(3) - 1) as u16, fragment_id_last: (s.nfrag.min(3) - 1) as u16, data: junk[..1].into() } }
+                    else { Datagram { sequence_id: (base + pk) & 0xFFFFF, channel_id: 0, window_parent_lead: pk as u16, channel_parent_lead: pk as u16, fragment_id: (k % nf) as u16, fragment_id_last: (nf - 1) as u16, data: junk[..FRAG].into() } };
                 set_fuel(2_000_000);
                 hc.handle_data_frame(DataFrame { sequence_id: fid, nonce: k % 2 == 0, datagrams: vec![dg] });
                 fid = fid.wrapping_add(s.stride);
@@ -204,8 +209,9 @@ pub fn streams(quick: bool) -> Vec<Stream> {
     let limits: &[usize] = if quick { &[1, 1448, 4000, 1_000_000] } else { &[1, 1448, 2896, 4000, 5 * 1448, 1_000_000] };
     let nfrags: &[usize] = &[1, 2, 3, 691, 65536];
     let strides: &[u32] = if quick { &[1, 33] } else { &[1, 31, 32, 33] };
-    for &limit in limits { for &nfrag in nfrags { for walk in 0..6u8 { for &stride in strides { for cadence in 0..3u8 { for flush in 0..3u8 {
+    for &limit in limits { for &nfrag in nfrags { for walk in 0..7u8 { for &stride in strides { for cadence in 0..3u8 { for flush in 0..3u8 {
         if quick && (walk == 2 && stride != 1) { continue; }
+        if walk == 6 && (nfrag > 3 || (quick && stride != 1)) { continue; }
         let frames = if quick { 3 * 4096 + 100 } else { 10 * 4096 };
         out.push(Stream { limit, nfrag, walk, stride, cadence, flush, frames });
     } } } } } }
